@@ -514,7 +514,7 @@ func init() {
 	core.Register(&core.Check{
 		ID:    "C03",
 		Level: "exploration",
-		Rule: "every source value of the boundary set (for int64/uint64/float64 settings: 0, +-1, +-(2^k-1), +-2^k, +-(2^k+1) for k in {7,8,15,16,31,32,53,63,64}, their float neighbours, fractions, MaxFloat32/64 and neighbours, subnormals, NaN, +-Inf, second counts around MaxInt64/1e9; for string settings every spelling of those in decimal, +, 0x, 0b, 0o, leading 0, .0, e0, 's' suffix, underscores, exponents, blanks, bool and duration words) x 21 target types (15 primitive kinds incl. time.Duration + 6 named types) x {field, pointer field, via ${ref}} and the 5 typed getters; oracle on math/big: success => the stored value is exactly rule(v); rule(v) undefined => error; non-trivial = the pair is a conversion the statement defines",
+		Rule:  "every source value of the boundary set (for int64/uint64/float64 settings: 0, +-1, +-(2^k-1), +-2^k, +-(2^k+1) for k in {7,8,15,16,31,32,53,63,64}, their float neighbours, fractions, MaxFloat32/64 and neighbours, subnormals, NaN, +-Inf, second counts around MaxInt64/1e9; for string settings every spelling of those in decimal, +, 0x, 0b, 0o, leading 0, .0, e0, 's' suffix, underscores, exponents, blanks, bool and duration words) x 21 target types (15 primitive kinds incl. time.Duration + 6 named types) x {field, pointer field, via ${ref}} and the 5 typed getters; oracle on math/big: success => the stored value is exactly rule(v); rule(v) undefined => error; non-trivial = the pair is a conversion the statement defines",
 		Assumptions: []string{
 			"boundary values of every sized type and every syntax class, not all 2^64 values",
 			"the statement is an either/or: refusing a representable value is not an alarm (successes per cell are visible in the outcome labels); conversions the statement does not define (bool<->number, text form of floats, non-strconv bool words) are executed but not compared",
